@@ -658,6 +658,26 @@ func runC09Len(c *Ctx, tn string) {
 			}
 		}
 		ret := keyOf(t.Ret)
+		// a cache whose list has not been installed yet (lazy initialisation) holds nothing: on the path
+		// where the list was found nil the length is 0 — consistent iff the map is empty too
+		nilList := false
+		for k, v := range t.PC {
+			if strings.HasPrefix(k, "eq(") && strings.Contains(k, "nil") && strings.Contains(k, ".list") && v == 1 {
+				nilList = true
+			}
+		}
+		if nilList {
+			want := "0"
+			for k, v := range t.PC {
+				if (strings.HasPrefix(k, "eq(0,len(") || strings.HasPrefix(k, "eq(len(")) && strings.Contains(k, "nodeMap") && v == 0 {
+					want = "-1"
+				}
+			}
+			if ret != want {
+				bad = append(bad, "the list is not installed yet but Len returns "+ret+" (want "+want+")")
+			}
+			continue
+		}
 		switch {
 		case mismatch == 0 && !strings.HasPrefix(ret, "llen:"):
 			bad = append(bad, "consistent state but Len returns "+ret+" instead of the list length")
